@@ -3,8 +3,8 @@
 //   run <N> <T> | tok ...     controlled replay (see the driver); output: event trace, ` # ctr=.. exec=.. by=.. done=..`
 //   free <seed> <N> <T>       real threads with seeded random yields before every mutex / condition-variable operation;
 //                             output `ok ctr>=T exec=all1` or a description of what went wrong
-// Every op line runs in a forked child (fresh scheduler state, no leaked threads); a child that hangs is killed by
-// SIGALRM and reported as `TIMEOUT`.
+// The scheduler state is reset for every op line; after a run that ends in DEADLOCK (threads parked forever) the process
+// re-executes itself and continues with the next line; a line that hangs for 60 s ends the process with `TIMEOUT`.
 #include <atomic>
 #include <chrono>
 #include <condition_variable>
@@ -22,7 +22,6 @@
 #include <thread>
 #include <utility>
 #include <vector>
-#include <sys/wait.h>
 #include <unistd.h>
 
 #include "cc/c33_sched_shim.h"
@@ -64,6 +63,8 @@ long ctr_at_return = -1;
 std::string run_ctrl(int N, int T, const std::vector<Tok>& toks) {
   c33::Global& g = c33::G();
   g.mode = c33::CTRL;
+  g.th.clear(); g.log.clear(); g.ncv = 0; g.active = -2; g.pick = -1;
+  ctr_at_return = -1;
   exec_cnt.assign(T, 0);
   exec_by.assign(T, 0);
   auto main_fn = [N, T]() {
@@ -93,6 +94,7 @@ std::string run_ctrl(int N, int T, const std::vector<Tok>& toks) {
     }
     if (!progress) break;
   }
+  if (done) mainT.rec_->os.join();
   std::ostringstream o;
   {
     std::unique_lock<std::mutex> lk(g.mu);
@@ -112,6 +114,7 @@ std::string run_ctrl(int N, int T, const std::vector<Tok>& toks) {
 std::string run_free(unsigned seed, int N, int T) {
   c33::Global& g = c33::G();
   g.mode = c33::FREE;
+  g.th.clear(); g.log.clear(); g.ncv = 0;
   g.seed = seed;
   c33::free_rng = seed * 747796405u + 1u;
   std::vector<std::atomic<int>> cnt(T);
@@ -162,32 +165,39 @@ std::string handle(const std::string& line) {
 
 }  // namespace
 
-int main() {
+bool read_line(std::string* line) {
+  // unbuffered: after a re-exec the new process image continues exactly at the next line
+  line->clear();
+  char c;
+  for (;;) {
+    ssize_t k = read(0, &c, 1);
+    if (k <= 0) return !line->empty();
+    if (c == '\n') return true;
+    line->push_back(c);
+  }
+}
+
+void on_alarm(int) {
+  const char msg[] = "TIMEOUT\n";
+  ssize_t k = write(1, msg, sizeof msg - 1); (void)k;
+  _exit(3);
+}
+
+int main(int argc, char** argv) {
+  signal(SIGALRM, on_alarm);
   std::string line;
-  while (std::getline(std::cin, line)) {
+  while (read_line(&line)) {
+    alarm(60);
+    std::string out = handle(line);
+    alarm(0);
+    fputs(out.c_str(), stdout);
+    fputc('\n', stdout);
     fflush(stdout);
-    int fds[2];
-    if (pipe(fds) != 0) { printf("INFRA pipe\n"); continue; }
-    pid_t pid = fork();
-    if (pid == 0) {
-      close(fds[0]);
-      alarm(30);
-      std::string out = handle(line) + "\n";
-      size_t off = 0;
-      while (off < out.size()) { ssize_t k = write(fds[1], out.data() + off, out.size() - off); if (k <= 0) break; off += (size_t)k; }
-      _exit(0);
+    if (out.find(" DEADLOCK") != std::string::npos) {
+      // controlled threads are parked forever: continue in a fresh process image on the same stdin / stdout
+      execv("/proc/self/exe", argv);
+      _exit(4);
     }
-    close(fds[1]);
-    std::string out;
-    char buf[4096]; ssize_t k;
-    while ((k = read(fds[0], buf, sizeof buf)) > 0) out.append(buf, (size_t)k);
-    close(fds[0]);
-    int status = 0;
-    waitpid(pid, &status, 0);
-    if (WIFEXITED(status) && WEXITSTATUS(status) == 0 && !out.empty()) fputs(out.c_str(), stdout);
-    else if (WIFSIGNALED(status) && WTERMSIG(status) == SIGALRM) printf("TIMEOUT\n");
-    else printf("CRASH status=%d\n", status);
-    fflush(stdout);
   }
   return 0;
 }
